@@ -4,7 +4,7 @@ CONSTANTS
   K = 3
   Idx = {1, 2, 3, 4}
   NegIdx = {2}
-  MaxLen = 4
+  MaxLen = 3
   Polys <- AllPolys
   Aligned = TRUE
 INVARIANTS TypeOK RecoversSecret ErrIffShort NeverPanics UsesFirstK MatchesFunction OwnValues
